@@ -188,7 +188,10 @@ impl Database {
         #[cfg(feature = "verif")]
         crate::verif::yield_point("has_arbiter.watchers.read");
         let watchers = self.watchers.map.read().unwrap();
-        watchers.contains_key(CONFLICTS_KEY)
+        // An arbiter that left (unwatch-all, end of its connection) leaves an empty list behind
+        watchers
+            .get(CONFLICTS_KEY)
+            .map_or(false, |senders| !senders.is_empty())
     }
 
     pub fn register_arbiter(&self, client: &Client) -> Response {
